@@ -191,6 +191,10 @@ def check(an, rep, tier):
                     '' if ok else 'the weights of the two-core split must go '
                     'to the core visited next (give_to="r" when ltr else "l")',
                     line=node.lineno, file=fn.module.path)
+    from .. import rules_proto as _RP
+    _callers = {f.qualname for f in prog.all_functions()
+                if f.module.name in ('als', 'als_func')}
+    _RP.check_param_forwarding(prog, rep, callers=_callers)
     rep.floor('K-empty', 1, 'emptiness tests')
     rep.floor('S-einsum-out', 3, 'interface updates')
     rep.floor('S-ret', 4, 'constant-rank results')
